@@ -1,0 +1,26 @@
+//go:build verif
+
+package docker
+
+import (
+	"net/http"
+
+	dockerapi "github.com/docker/engine-api/client"
+	criapi "k8s.io/cri-api/pkg/apis/runtime/v1"
+)
+
+// This file is compiled only with -tags verif. It builds a DockerInterface whose two runtime clients talk to
+// in-process fakes instead of the docker / containerd sockets; it changes no behaviour.
+
+// VerifNewDockerInterface returns a DockerInterface whose engine-api client sends every request to rt (an
+// in-process round tripper registered for the http scheme of a private transport; nothing is dialled) and
+// whose CRI client is cri. Which of the two is consulted is decided, as in production, by CONTAINERD_HOST.
+func VerifNewDockerInterface(rt http.RoundTripper, cri criapi.RuntimeServiceClient) (*DockerInterface, error) {
+	tr := &http.Transport{DisableKeepAlives: true}
+	tr.RegisterProtocol("http", rt)
+	cli, err := dockerapi.NewClient("tcp://docker.sim:2375", "1.23", &http.Client{Transport: tr}, nil)
+	if err != nil {
+		return nil, err
+	}
+	return &DockerInterface{timeout: defaultTimeout, client: cli, containerdClient: cri}, nil
+}
